@@ -33,7 +33,7 @@ func c09(tier string) {
 	nHist := ctx.N(160, 2400)
 	if !ctx.IsShard() {
 		// references are recomputed from the current tree on every run
-		_ = os.RemoveAll(filepath.Join(lib.VerifRoot, "out", "c09-ref"))
+		_ = os.RemoveAll(filepath.Join(lib.OutRoot(), "out", "c09-ref"))
 		ctx.RunShards()
 		ctx.MinDistinct = 50
 		if ctx.Counter("injected_faults") == 0 {
@@ -79,7 +79,7 @@ func c09(tier string) {
 		defs = append(defs, pdef{p.Text(), append([]string{g.CanonicalJSONLD(), lib.DecorateWithSourceMaps(g, rr).Text}, append(c05docs[:2], common...)...)})
 	}
 	// fresh-process references, cached on disk per (profile, doc) across workers of this run
-	refDir := filepath.Join(lib.VerifRoot, "out", "c09-ref", fmt.Sprintf("seed%d", ctx.Seed))
+	refDir := filepath.Join(lib.OutRoot(), "out", "c09-ref", fmt.Sprintf("seed%d", ctx.Seed))
 	_ = os.MkdirAll(refDir, 0o755)
 	fresh := func(pi, di int) (string, bool) {
 		key := filepath.Join(refDir, fmt.Sprintf("%x-%x.ref", hash(defs[pi].text), hash(defs[pi].docs[di])))
